@@ -87,6 +87,8 @@ type dialSpec struct {
 	PartialSync bool `json:"partial_sync,omitempty"`
 	// EarlyConfigure: the runtime sends Configure as soon as the registration arrives, then refuses the registration
 	EarlyConfigure bool `json:"early_configure_then_refuse,omitempty"`
+	// SplitSync: the runtime sends its state in two messages, 80 ms apart
+	SplitSync bool `json:"split_sync,omitempty"`
 	// BadMask: the runtime's configuration makes the plugin subscribe to an event it cannot handle
 	BadMask bool `json:"bad_mask,omitempty"`
 	// SlowConfigure: the runtime waits this long after the registration before it configures the plugin
@@ -205,6 +207,21 @@ func (e *c16Env) dial(string) (net.Conn, error) {
 			_, err := rr.Plugin.Synchronize(ctx, &api.SynchronizeRequest{Pods: []*api.PodSandbox{{Id: "stale-pod"}}, More: true})
 			s.err = fmt.Errorf("partial sync then drop (chunk ack err=%v)", err)
 			rr.Close()
+			return
+		}
+		if spec.SplitSync {
+			first, second := s.syncPods+"-a", s.syncPods+"-b"
+			s.syncPods = first + "," + second
+			if _, err := rr.Plugin.Synchronize(ctx, &api.SynchronizeRequest{Pods: []*api.PodSandbox{{Id: first}}, More: true}); err != nil {
+				s.err = err
+				return
+			}
+			time.Sleep(80 * time.Millisecond) // a late close notification of the previous session lands in here
+			if _, err := rr.Plugin.Synchronize(ctx, &api.SynchronizeRequest{Pods: []*api.PodSandbox{{Id: second}}}); err != nil {
+				s.err = err
+				return
+			}
+			close(s.ready)
 			return
 		}
 		if _, err := rr.Plugin.Synchronize(ctx, &api.SynchronizeRequest{Pods: []*api.PodSandbox{{Id: s.syncPods}}}); err != nil {
@@ -389,6 +406,49 @@ func c16Cut(res *ev.Result, dir string, k int, tag string) {
 	res.Seen(fmt.Sprintf("cut|%s|%d|established=%v", dir, k, established))
 }
 
+// --- scenario: Stop while Start is still in its handshake -------------------------------------------
+
+// c16StopDuringStart: Stop is called while Start waits for a slow runtime to configure the plugin. Stop
+// returns; afterwards the stub is stopped: Wait returns and the runtime sees the connection go away —
+// whether Start itself reported success or an error in between.
+func c16StopDuringStart(res *ev.Result, after time.Duration, tag string) {
+	x := &c16Ctx{res: res, what: map[string]any{"scenario": "stop-during-start", "stop_after_ms": after.Milliseconds(), "configure_after_ms": 250}}
+	e, err := newC16Env(dialSpec{SlowConfigure: 250 * time.Millisecond})
+	if err != nil {
+		res.Note("stub.New: %v", err)
+		return
+	}
+	defer e.closeAll()
+	sdone := make(chan struct{})
+	go func() { defer close(sdone); e.st.Start(context.Background()) }()
+	for i := 0; i < 5000 && e.dialCount() == 0; i++ { // Start has dialled: it is inside its handshake, holding the stub
+		time.Sleep(time.Millisecond)
+	}
+	if e.dialCount() == 0 {
+		res.Note("%s: Start did not get going", tag)
+		return
+	}
+	time.Sleep(after)
+	if !x.timed("Stop during Start", "stop.during-start", e.st.Stop) {
+		return
+	}
+	if rig.Await(sdone, c16Nominal, c16Hard) == "hang" {
+		x.viol("hang/start.stopped", "Start did not return after Stop was called during its handshake; goroutines:\n"+nriStacks())
+		return
+	}
+	if !x.timed("Wait after Stop", "wait.after-stop-during-start", e.st.Wait) {
+		return
+	}
+	s := e.last()
+	if s != nil {
+		if rig.Await(s.rr.Closed, c16Nominal, c16Hard) == "hang" {
+			x.viol("stop-during-start-lost", "Stop was called (and returned) while Start was in its handshake, yet the session is still up afterwards: the runtime's connection was never closed")
+			return
+		}
+	}
+	res.Seen(fmt.Sprintf("stop-during-start|%dms", after.Milliseconds()))
+}
+
 // --- scenario: histories --------------------------------------------------------------------------
 
 func c16History(res *ev.Result, ops []string, tag string, hookDelay bool) {
@@ -436,11 +496,15 @@ func c16History(res *ev.Result, ops []string, tag string, hookDelay bool) {
 					return
 				}
 			}
-		case "start-slow":
+		case "start-slow", "start-split-sync":
 			if cur != nil {
 				continue
 			}
-			e.setNext(dialSpec{SlowConfigure: 250 * time.Millisecond})
+			if op == "start-split-sync" {
+				e.setNext(dialSpec{SplitSync: true})
+			} else {
+				e.setNext(dialSpec{SlowConfigure: 250 * time.Millisecond})
+			}
 			cur = x.startOK(e, "start-in-history/"+prevOp(ops, i))
 			if cur == nil {
 				return
@@ -600,6 +664,9 @@ func runC16(c *ev.ChildEnv, res *ev.Result) {
 		{"start-early-configure-refused", "pause", "start-slow", "event"},
 		{"start-early-configure-refused", "start-slow", "event"},
 		{"start-bad-mask", "start", "event"},
+		{"start", "loss", "start-split-sync", "event"},
+		{"start", "loss", "start-split-sync", "event", "pause", "event"},
+		{"start", "stop", "start-split-sync", "event"},
 		{"start", "stop", "start-bad-mask", "wait", "start-slow", "event", "pause", "event"},
 		{"start-early-configure-refused", "start-early-configure-refused", "start-slow", "event", "pause", "event"},
 		{"start", "stop", "start-early-configure-refused", "start-early-configure-refused", "pause", "start-slow", "event", "pause", "event"},
@@ -608,7 +675,7 @@ func runC16(c *ev.ChildEnv, res *ev.Result) {
 		{"wait", "stop", "start", "event", "loss", "wait", "start-unreachable", "start", "event"},
 		{"start", "stop", "start", "stop", "start", "stop", "start", "pause", "event"},
 	}
-	opsPool := []string{"start", "start", "start-slow", "stop", "loss", "wait", "event", "event", "pause", "start-unreachable", "start-refused", "start-partial-sync", "start-early-configure-refused", "start-bad-mask"}
+	opsPool := []string{"start", "start", "start-slow", "stop", "loss", "wait", "event", "event", "pause", "start-unreachable", "start-refused", "start-partial-sync", "start-early-configure-refused", "start-bad-mask", "start-split-sync"}
 	hn := 0
 	addHist := func(ops []string) {
 		hn++
@@ -631,6 +698,12 @@ func runC16(c *ev.ChildEnv, res *ev.Result) {
 		}
 		ops = append(ops, "start", "event")
 		addHist(ops)
+	}
+	for i, after := range []time.Duration{5 * time.Millisecond, 60 * time.Millisecond, 150 * time.Millisecond, 400 * time.Millisecond} {
+		if (i+c.Batch)%c.Batches == 0 || c.Tier == "thorough" {
+			tag := fmt.Sprintf("c16b%dsds%d", c.Batch, i)
+			jobs = append(jobs, func() { res.Eval(); c16StopDuringStart(res, after, tag) })
+		}
 	}
 	// all cases run concurrently on separate stub instances: hanging cases cost one hard bound in total
 	delay.Store(true)
